@@ -189,7 +189,15 @@ inductive Redir
   | normal (fd : Option Nat) (op : RedirOp) (operand : Word)
   | hereDoc (fd : Option Nat) (removeTabs : Bool) (delimiter : Word)
 
-def printNat (n : Nat) : List Char := (toString n).toList
+/-- decimal digits of `n`, most significant first (`fuel > n` suffices) -/
+def natDigits : Nat → Nat → List Char
+  | 0, _ => []
+  | fuel + 1, n =>
+    if n < 10 then [Char.ofNat (48 + n)]
+    else natDigits fuel (n / 10) ++ [Char.ofNat (48 + n % 10)]
+
+/-- `{fd}` (`impl Display for i32` on a non-negative value) -/
+def printNat (n : Nat) : List Char := natDigits (n + 1) n
 
 def printFd : Option Nat → List Char
   | none => []
@@ -231,10 +239,16 @@ structure SimpleCommand where
   words : List Word
   redirs : List Redir
 
+/-- the strings accepted by `Keyword::from_str` -/
+def keywords : List (List Char) :=
+  [['!'], ['[', '['], [']', ']'], ['c', 'a', 's', 'e'], ['d', 'o'], ['d', 'o', 'n', 'e'],
+   ['e', 'l', 'i', 'f'], ['e', 'l', 's', 'e'], ['e', 's', 'a', 'c'], ['f', 'i'], ['f', 'o', 'r'],
+   ['f', 'u', 'n', 'c', 't', 'i', 'o', 'n'], ['i', 'f'], ['i', 'n'],
+   ['n', 'a', 'm', 'e', 's', 'p', 'a', 'c', 'e'], ['s', 'e', 'l', 'e', 'c', 't'], ['t', 'h', 'e', 'n'],
+   ['u', 'n', 't', 'i', 'l'], ['w', 'h', 'i', 'l', 'e'], ['{'], ['}']]
+
 /-- `Keyword::from_str(..).is_ok()` -/
-def isKeyword (s : List Char) : Bool :=
-  ["!", "[[", "]]", "case", "do", "done", "elif", "else", "esac", "fi", "for", "function", "if", "in",
-   "namespace", "select", "then", "until", "while", "{", "}"].contains (String.ofList s)
+def isKeyword (s : List Char) : Bool := keywords.contains s
 
 /-- `MaybeLiteral::to_string_if_literal` for a word: every unit is `Unquoted(Literal(c))` -/
 def wordLiteral : Word → Option (List Char)
